@@ -8,16 +8,6 @@ From Verif Require Import Lib.Base Lib.Dyadic Model.Native
 Definition go_typed (f : fval) : Prop :=
   match f with FFunc s b => wf_sig s /\ body_ok s b | _ => True end.
 
-(* the guard the pinned tree needs: no nil value; a function of documented shape has
-   predeclared parameter types and no user-defined byte-slice result *)
-Definition entry_ok (f : fval) : Prop :=
-  match f with
-  | FNil => False
-  | FNonFunc => True
-  | FFunc s b => wf_sig s /\ body_ok s b /\
-                 (acceptable_sig s = true -> params_safe s = true /\ results_safe s = true)
-  end.
-
 Lemma build_table_ok funcs names :
   (forall n, In n names -> exists s b, lookup n funcs = Some (FFunc s b)) ->
   exists tbl, build_table funcs names = NOk tbl.
@@ -47,7 +37,7 @@ Section Prims.
 
   (* set-up succeeds exactly when every entry is of the documented shape; then the table is built *)
   Lemma init_ok funcs :
-    (forall n f, In (n, f) funcs -> entry_ok f) ->
+    (forall n f, In (n, f) funcs -> go_typed f) ->
     (exists n e f, init_native_funcs funcs = NOk (inl (n, e)) /\ In (n, f) funcs /\ acceptable n f = false) \/
     (exists tbl, init_native_funcs funcs = NOk (inr tbl) /\
                  build_table funcs (sort_names (map fst funcs)) = NOk tbl /\
@@ -55,9 +45,8 @@ Section Prims.
   Proof.
     intros H. unfold init_native_funcs.
     destruct (check_all_ok funcs) as (r & Er & Hr).
-    { intros n f Hin. specialize (H n f Hin). split.
-      - intros ->. exact H.
-      - destruct f as [| |s b]; cbn [entry_ok wf_fval] in *; tauto. }
+    { intros n f Hin. specialize (H n f Hin).
+      destruct f as [| |s b]; cbn [go_typed wf_fval] in *; tauto. }
     rewrite Er. cbn [nbind]. destruct r as [[n e]|].
     - left. destruct Hr as (f & Hin & A & _). exists n, e, f. repeat split; assumption.
     - right. destruct (build_table_ok funcs (sort_names (map fst funcs))) as (tbl & Et).
@@ -74,32 +63,24 @@ Section Prims.
       exists tbl. rewrite Et. cbn [nbind]. repeat split; try assumption.
   Qed.
 
-  (* "never a panic", with the guard the pinned tree needs *)
-  Theorem run_no_panic_partial funcs_r funcs_i awk name args :
+  (* "never a panic": for every map whose entries are what Go's typing allows (nil and
+     non-function values included), both iteration orders, every name, every argument list *)
+  Theorem run_no_panic funcs_r funcs_i awk name args :
     NoDup (map fst funcs_i) -> Permutation funcs_r funcs_i ->
-    (forall n f, In (n, f) funcs_i -> entry_ok f) ->
-    lookup name funcs_r <> Some FNonFunc ->
+    (forall n f, In (n, f) funcs_i -> go_typed f) ->
     forall k, run funcs_r funcs_i awk name args <> OPanic k.
   Proof.
-    intros ND P Hok Hnf k. unfold Native.run.
-    assert (Hok_r : forall n f, In (n, f) funcs_r -> entry_ok f).
-    { intros n f Hin. apply (Hok n f). eapply Permutation_in; [exact P|exact Hin]. }
-    destruct (resolve_call funcs_r awk name (zlen args)) as [[pe|]|kk] eqn:ER; [discriminate| |].
-    2:{ exfalso. unfold resolve_call in ER. destruct (mem_bytes name awk); [discriminate|].
-        destruct (lookup name funcs_r) as [[| |s b]|] eqn:L; try discriminate.
-        - apply lookup_in in L. exact (Hok_r _ _ L).
-        - congruence.
-        - destruct (_ <? zlen args); discriminate. }
+    intros ND P Hok k. unfold Native.run.
+    destruct (resolve_call_no_panic funcs_r awk name (zlen args)) as [[pe|] ER]; rewrite ER; [discriminate|].
     destruct (init_ok funcs_i Hok) as [(n & e & f & -> & _)|(tbl & -> & Et & Hacc)]; [discriminate|].
     destruct (mem_bytes name awk) eqn:EA; [discriminate|].
     destruct (resolve_call_passes funcs_r awk name (zlen args) EA ER) as (s & b & L & Har).
     destruct (indexes_agree funcs_r funcs_i name tbl ND P Et (lookup_some_in_names _ _ _ L))
       as (_ & s' & b' & L1 & L2 & Hidx).
     rewrite L in L1. injection L1 as <- <-.
-    pose proof (lookup_in _ _ _ L2) as Hin. pose proof (Hok _ _ Hin) as (W & B & Hsafe).
+    pose proof (lookup_in _ _ _ L2) as Hin. pose proof (Hok _ _ Hin) as (W & B).
     pose proof (Hacc _ _ Hin) as A. unfold acceptable in A. apply andb_true_iff in A as [_ A].
-    destruct (Hsafe A) as [PS RS].
-    destruct (valid_sig_no_panic_partial parse_float parse_prefix fmt_float tbl _ s b args Hidx W A PS RS B) as (r & -> & _).
+    destruct (valid_sig_no_panic parse_float parse_prefix fmt_float tbl _ s b args Hidx W A B) as (r & -> & _).
     { destruct (variadic s); [left; reflexivity|right; exact Har]. }
     destruct r; discriminate.
   Qed.
@@ -108,7 +89,7 @@ Section Prims.
      arguments of spec_values; result and error as that function returns them *)
   Theorem run_calls_named_function funcs_r funcs_i awk name args s b :
     NoDup (map fst funcs_i) -> Permutation funcs_r funcs_i ->
-    (forall n f, In (n, f) funcs_i -> entry_ok f) ->
+    (forall n f, In (n, f) funcs_i -> go_typed f) ->
     (forall n f, In (n, f) funcs_i -> acceptable n f = true) ->
     mem_bytes name awk = false -> lookup name funcs_r = Some (FFunc s b) ->
     (variadic s = true /\ zlen args <= 1000000000 \/ variadic s = false /\ zlen args <= zlen (params s)) ->
@@ -128,10 +109,9 @@ Section Prims.
     destruct (indexes_agree funcs_r funcs_i name tbl ND P Et (lookup_some_in_names _ _ _ L))
       as (_ & s' & b' & L1 & L2 & Hidx).
     rewrite L in L1. injection L1 as <- <-.
-    pose proof (lookup_in _ _ _ L2) as Hin. pose proof (Hok _ _ Hin) as (W & B & Hsafe).
+    pose proof (lookup_in _ _ _ L2) as Hin. pose proof (Hok _ _ Hin) as (W & B).
     pose proof (Hacc _ _ Hin) as A. unfold acceptable in A. apply andb_true_iff in A as [_ A].
-    destruct (Hsafe A) as [PS RS].
-    destruct (valid_sig_no_panic_partial parse_float parse_prefix fmt_float tbl _ s b args Hidx W A PS RS B) as (r & Er & Hr).
+    destruct (valid_sig_no_panic parse_float parse_prefix fmt_float tbl _ s b args Hidx W A B) as (r & Er & Hr).
     { destruct Har as [[V _]|[_ H]]; [left; exact V|right; exact H]. }
     exists r. split; [exact Hr|]. rewrite Er. destruct r; reflexivity.
   Qed.
@@ -139,7 +119,7 @@ Section Prims.
   (* a non-nil error aborts the run with exactly that error *)
   Theorem run_error_identity funcs_r funcs_i awk name args s b o e id :
     NoDup (map fst funcs_i) -> Permutation funcs_r funcs_i ->
-    (forall n f, In (n, f) funcs_i -> entry_ok f) ->
+    (forall n f, In (n, f) funcs_i -> go_typed f) ->
     (forall n f, In (n, f) funcs_i -> acceptable n f = true) ->
     mem_bytes name awk = false -> lookup name funcs_r = Some (FFunc s b) ->
     (variadic s = true /\ zlen args <= 1000000000 \/ variadic s = false /\ zlen args <= zlen (params s)) ->
@@ -156,7 +136,7 @@ Section Prims.
   (* ... and with a nil error (or no error result) the converted result is the value *)
   Theorem run_value funcs_r funcs_i awk name args s b :
     NoDup (map fst funcs_i) -> Permutation funcs_r funcs_i ->
-    (forall n f, In (n, f) funcs_i -> entry_ok f) ->
+    (forall n f, In (n, f) funcs_i -> go_typed f) ->
     (forall n f, In (n, f) funcs_i -> acceptable n f = true) ->
     mem_bytes name awk = false -> lookup name funcs_r = Some (FFunc s b) ->
     (variadic s = true /\ zlen args <= 1000000000 \/ variadic s = false /\ zlen args <= zlen (params s)) ->
@@ -176,26 +156,29 @@ Section Prims.
     - rewrite (Hnil o e H) in Hid. discriminate.
   Qed.
 
-  (* functions of any other shape, or named like a keyword, are rejected at set-up (if the
-     parser has not rejected the call already); guard: no nil value, call target not a non-function *)
+  (* functions of any other shape (nil and non-function values included), or named like a
+     keyword: the run ends in a parse error or in a set-up error naming such an entry *)
   Theorem run_rejects_other_shapes funcs_r funcs_i awk name args n0 f0 :
-    (forall n f, In (n, f) funcs_i -> entry_ok f) -> lookup name funcs_r <> Some FNonFunc ->
-    (forall f, lookup name funcs_r = Some f -> f <> FNil) ->
+    (forall n f, In (n, f) funcs_i -> go_typed f) ->
     In (n0, f0) funcs_i -> acceptable n0 f0 = false ->
     (exists pe, run funcs_r funcs_i awk name args = OParseError pe) \/
     (exists n e f, run funcs_r funcs_i awk name args = OSetupError n e /\ In (n, f) funcs_i /\ acceptable n f = false).
   Proof.
-    intros Hok Hnf Hnn Hin A. unfold Native.run.
-    destruct (resolve_call funcs_r awk name (zlen args)) as [[pe|]|kk] eqn:ER.
+    intros Hok Hin A. unfold Native.run.
+    destruct (resolve_call_no_panic funcs_r awk name (zlen args)) as [[pe|] ER]; rewrite ER.
     - left. exists pe. reflexivity.
     - right. destruct (init_ok funcs_i Hok) as [(n & e & f & -> & Hin' & A')|(tbl & _ & _ & Hacc)].
       + exists n, e, f. repeat split; assumption.
       + rewrite (Hacc n0 f0 Hin) in A. discriminate.
-    - exfalso. unfold resolve_call in ER. destruct (mem_bytes name awk); [discriminate|].
-      destruct (lookup name funcs_r) as [[| |s b]|] eqn:L; try discriminate.
-      + exact (Hnn FNil eq_refl eq_refl).
-      + congruence.
-      + destruct (_ <? zlen args); discriminate.
+  Qed.
+
+  (* calling a map entry that is not a function: a parse error *)
+  Theorem run_not_a_function funcs_r funcs_i awk name args f :
+    mem_bytes name awk = false -> lookup name funcs_r = Some f -> (forall s b, f <> FFunc s b) ->
+    run funcs_r funcs_i awk name args = OParseError PNotFunc.
+  Proof.
+    intros EA L H. unfold Native.run.
+    rewrite (not_a_function_is_parse_error funcs_r awk name (zlen args) f EA L H). reflexivity.
   Qed.
 
   (* too many arguments to a non-variadic function: a parse error, before anything runs *)
